@@ -186,9 +186,27 @@ def build_patterns(payload):
     return out
 
 
+class Unfaithful(Exception):
+    """a concrete value of the verifier cannot be rebuilt as an equivalent run-time value"""
+
+
 def _unjson(a):
     if isinstance(a, list):
         return [_unjson(x) for x in a]
+    if isinstance(a, dict) and "__cls__" in a:
+        # an instance of the class layer with the same pattern, verbose text and flag
+        import pregex.core.classes as cl
+        verbose, neg = a["__cls__"]
+        cands = [lambda: cl.Any(), lambda: cl.AnyWordChar(is_global=True), lambda: cl.AnyButWordChar(is_global=True),
+                 lambda: getattr(cl, "__Class")(verbose, neg)]
+        for mk in cands:
+            try:
+                o = mk()
+            except Exception:
+                continue
+            if str(o) == a["__pregex__"] and o._get_verbose_pattern() == verbose and o._Class__is_negated == neg:
+                return o
+        raise Unfaithful()
     if isinstance(a, dict) and "__pregex__" in a:
         from pregex.core.pre import Pregex
         return Pregex(a["__pregex__"], escape=False)
@@ -219,7 +237,11 @@ def call_concrete(payload):
     """a function of the package applied to concrete arguments"""
     from pvc import bex_contract
     try:
-        return _describe(bex_contract.call_real(payload["qualname"], {k: _unjson(v) for k, v in payload["args"].items()}))
+        args = {k: _unjson(v) for k, v in payload["args"].items()}
+    except Unfaithful:
+        return {"unfaithful": True}
+    try:
+        return _describe(bex_contract.call_real(payload["qualname"], args))
     except BaseException as ex:
         return {"exception": type(ex).__name__, "msg": str(ex)[:200]}
 
@@ -231,7 +253,11 @@ def construct(payload):
     mod = importlib.import_module(payload["module"])
     cls = getattr(mod, payload["cls"])
     try:
-        v = cls(*_unjson(payload.get("args", [])), **{k: _unjson(x) for k, x in payload.get("kwargs", {}).items()})
+        try:
+            args, kwargs = _unjson(payload.get("args", [])), {k: _unjson(x) for k, x in payload.get("kwargs", {}).items()}
+        except Unfaithful:
+            return {"unfaithful": True}
+        v = cls(*args, **kwargs)
         return _describe(v)
     except BaseException as ex:
         return {"exception": type(ex).__name__, "msg": str(ex)[:200]}
